@@ -44,7 +44,8 @@ c.finish(
     assumptions=[
         "code space ranges are the ones NewCodec accepts (no code a proper prefix of another): hypothesis prefix_free; "
         "Codec.Decode/AppendCode behave as C12 specifies (a string is a code iff it lies in a range of its own length)",
-        "unmapped codes: LookupCID = the chain's singles/ranges first, then LookupNotdefCID of the file itself (own notdef entries, then the parents')",
+        "unmapped codes: LookupCID = the chain's singles/ranges first (lookupMapped), then LookupNotdefCID of the file itself (own notdef entries, "
+        "then the parents'); SetMapping omits an entry only when a mapping of the parent chain gives the same CID",
         "maps have distinct keys that are codes of the code space, CIDs are uint32; text values are valid UTF-8 "
         "(modelled as rune lists; a string that is not valid UTF-8 cannot be stored in a ToUnicode CMap)",
         "enumeration theorems assume at most limits.MaxCMapMappings (translated constant) entries, the documented budget of All()",
@@ -57,9 +58,5 @@ c.finish(
     ],
     partial=[
         "embed/extract (WriteTo/readCMap/readToUnicode) has no theorem: checked on the implementation for every generated case",
-        "setmapping_lookup* carry the side condition omit_safe (an entry SetMapping omits on the strength of the parent's notdef answer "
-        "is not shadowed by the file's own notdef entries; trivial without parent or without own notdef entries); the statement without it, "
-        "setmapping_lookup_mapped_full, is refuted (finding cid-setmapping-omits-entry-shadowed-by-own-notdef); "
-        "setmapping_lookup_chain holds unconditionally",
     ],
 )
